@@ -153,9 +153,20 @@ func (c *c13) graphCase(r *fw.Rec, rng *rand.Rand, idx int) {
 	// path-like and non-canonical spellings are used as well
 	mm := tengo.NewModuleMap()
 	var desc []string
-	scheme := rng.Intn(6)
+	scheme := rng.Intn(8)
 	modName := func(j int) string {
 		switch scheme {
+		case 6:
+			// pairs of distinct modules whose names differ only by a spelling a path cleaner would remove
+			if j%2 == 1 {
+				return fmt.Sprintf("./m%d", j-1)
+			}
+			return fmt.Sprintf("m%d", j)
+		case 7:
+			if j%2 == 1 {
+				return fmt.Sprintf("lib//m%d", j-1)
+			}
+			return fmt.Sprintf("lib/m%d", j)
 		case 1:
 			return fmt.Sprintf("./m%d", j)
 		case 2:
@@ -274,7 +285,11 @@ func (c *c13) valueCase(r *fw.Rec, rng *rand.Rand, cs fw.Case) {
 	et := pick(rng, []gen.T{gen.TInt, gen.TStr, gen.TArrI, gen.TArr, gen.TMap, gen.TMap, gen.TFn0, gen.TFn1, gen.TImmArr, gen.TBytes, gen.TErr, gen.TUndef, gen.TFloat})
 	mopts := gen.Options{MaxStmts: 2 + rng.Intn(8), MaxDepth: 2, InModule: true, ExportType: et, ClosureHeavy: rng.Intn(3) == 0}
 	body := gen.Generate(gen.New(rng, mopts)).Src
-	switch rng.Intn(6) {
+	switch rng.Intn(8) {
+	case 6, 7: // every syntactic form of export operand that can yield a container
+		body = "a := [1, 2]\nb := [3]\nc := undefined\nd := {k: 1, data: [4, [5]]}\nf := func() { return d }\ncond := " + pick(rng, []string{"true", "false"}) + "\nexport " +
+			pick(rng, []string{"a + b", "b + a + b", "c || d", "d && a", "c || a", "(a + b)", "cond ? a : d", "!cond ? (a + b) : (c || d)", "a[0:1]", "a[:]", "f()", "[a, d][cond ? 0 : 1]", "{x: a, y: d}.y", "{x: a}.x",
+				"immutable(a)", "(func() { return a + b })()", "d.data", "d.data[1] + a", "-a[0]", "a + []", "c && d || a"}) + "\n"
 	case 0: // no export
 		body = strings.Replace(body, "\nexport ", "\nunused := ", 1)
 		if strings.HasPrefix(body, "export ") {
